@@ -149,6 +149,11 @@ P("C11",
   units=[
    U("c11.wire", "c11", "TestWire", "peerwriter bytes == reference encoding; peerreader(stream, any fragmentation) == sent messages; upload counter == payload received",
      Q(3000, 8), T(400000), min_nontrivial_frac=0.2, shrinktime="10s"),
+   U("c11.slow", "c11", "TestSlow",
+     "a piece message trickles into the client's reader as fragments (1 B - 16 KiB) separated by pauses (0-12 ms) with a piece timeout of 25-60 ms, so that the timeout expires up "
+     "to dozens of times while bytes keep arriving, followed by 1-3 have messages: the reader delivers the identical block and every following message; cases in which a pause "
+     "came close to the timeout (loaded machine) are inconclusive; non-trivial = at least two expiries inside the block",
+     Q(160, 16, 600), T(4000, 16)),
   ])
 
 P("C12",
